@@ -113,6 +113,7 @@ type kase struct {
 	PostCookie  string `json:"auth_cookie_at_post"`
 	Revoke      string `json:"idp_revoke_outcome"`
 	Reuse       string `json:"reuse_revalidation"` // validate | refresh
+	AuthTime    string `json:"auth_session_at_sign_out"`
 	Replay      bool   `json:"replay_post_afterwards"`
 
 	ReturnAddr  string   `json:"return_address,omitempty"`
@@ -127,7 +128,7 @@ type kase struct {
 }
 
 func (k *kase) descriptor() string {
-	return fmt.Sprintf("%v|%s|%s|%s|%s|%s|%s|%s|%s", k.Secure, k.Host, k.ProxyCookie, k.Sig, k.Mode, k.GetCookie, k.PostCookie, k.Revoke, k.Reuse)
+	return fmt.Sprintf("%v|%s|%s|%s|%s|%s|%s|%s|%s|%s", k.Secure, k.Host, k.ProxyCookie, k.Sig, k.Mode, k.GetCookie, k.PostCookie, k.Revoke, k.Reuse, k.AuthTime)
 }
 
 func genCase(i int, r *rand.Rand) *kase {
@@ -172,7 +173,64 @@ func genCase(i int, r *rand.Rand) *kase {
 		k.Reuse = "refresh"
 	}
 	k.Replay = r.Intn(3) == 0
+	switch x := r.Intn(20); {
+	case x < 9:
+		k.AuthTime = "fresh"
+	case x < 14:
+		k.AuthTime = "token-expired"
+	case x < 16:
+		k.AuthTime = "lifetime-nearly-over"
+	case x < 17:
+		k.AuthTime = "lifetime-expired"
+	case x < 19:
+		k.AuthTime = "no-refresh-token"
+	default:
+		k.AuthTime = "no-refresh-token-token-expired"
+	}
 	return k
+}
+
+// Virtual time of the authenticator session at sign-out (the cookie is opened with the known key, its
+// deadlines are moved, and it is re-sealed; every deadline stays >= 90 s away from "now"):
+//
+//	fresh                          - as issued by the login
+//	token-expired                  - 61..120 min later: the access token's refresh deadline is past, the refresh
+//	                                 token (what Okta revokes) is as valid at the IdP as ever: HARD requirement
+//	lifetime-nearly-over           - the session was refreshed recently, its lifetime ends within minutes: HARD
+//	lifetime-expired               - the cookie still carries tokens the IdP honours, but the authenticator no
+//	                                 longer regards its holder as signed in: counted don't-care (an implementation
+//	                                 that treats it like "no session" and one that revokes are both defensible)
+//	no-refresh-token               - the IdP issued no refresh token; the access token is all there is to revoke:
+//	                                 alarm only if the session is cleared without ANY revoke call at the IdP
+//	no-refresh-token-token-expired - nothing valid left to revoke: counted don't-care
+func (k *kase) hardRevoke() bool {
+	return k.AuthTime == "fresh" || k.AuthTime == "token-expired" || k.AuthTime == "lifetime-nearly-over"
+}
+
+func (k *kase) noRT() bool { return strings.HasPrefix(k.AuthTime, "no-refresh-token") }
+
+// ageAuthSession applies the case's virtual-time gap to the saved authenticator cookie.
+func (h *hist) ageAuthSession() {
+	as, k := h.w.as, h.k
+	s := as.OpenCookie(h.id.AuthCookie)
+	if s == nil {
+		return
+	}
+	now := time.Now().Truncate(time.Second)
+	switch k.AuthTime {
+	case "token-expired", "no-refresh-token-token-expired":
+		sut.ShiftSession(s, time.Duration(61+h.r.Intn(60))*time.Minute)
+	case "lifetime-nearly-over":
+		s.LifetimeDeadline = now.Add(time.Duration(90+h.r.Intn(600)) * time.Second)
+	case "lifetime-expired":
+		s.LifetimeDeadline = now.Add(-time.Duration(90+h.r.Intn(3600)) * time.Second)
+		if h.r.Intn(2) == 0 {
+			s.RefreshDeadline = now.Add(-time.Duration(90+h.r.Intn(3600)) * time.Second)
+		}
+	default:
+		return
+	}
+	h.id.AuthCookie = as.SealCookie(s)
 }
 
 type hist struct {
@@ -299,7 +357,31 @@ func (h *hist) sigParams(class string, emitted url.Values) (get, postQuery, post
 // "the user's token": access and refresh token both qualify).
 func (h *hist) revokeCalls() []sut.IdPCall {
 	idp := h.w.as.IdP
-	return append(idp.PeekCalls("revoke", h.id.RT), idp.PeekCalls("revoke", h.id.AT)...)
+	var out []sut.IdPCall
+	for _, key := range h.tokens() {
+		out = append(out, idp.PeekCalls("revoke", key)...)
+	}
+	return out
+}
+
+// tokens are the session's own (non-empty) tokens.
+func (h *hist) tokens() []string {
+	if h.id.RT == "" {
+		return []string{h.id.AT}
+	}
+	return []string{h.id.RT, h.id.AT}
+}
+
+// emptyTokenRevokes counts revoke calls WITHOUT a token that overlap the request: they cannot be
+// attributed to a history (every session without refresh token shares that key).
+func (h *hist) emptyTokenRevokes(rs *sut.Resp) int {
+	n := 0
+	for _, c := range h.w.as.IdP.PeekCalls("revoke", "") {
+		if c.EndSeq > rs.StartSeq && c.Seq < rs.EndSeq {
+			n++
+		}
+	}
+	return n
 }
 
 func within(calls []sut.IdPCall, rs *sut.Resp) (n, completed int) {
@@ -335,12 +417,19 @@ func (h *hist) signInYieldsCode(cookie string) (code bool, idpAsked bool, status
 		scheme = "https"
 	}
 	q := as.SignInQuery(scheme+"://"+h.k.Host+"/oauth2/callback", "state-"+h.id.Tag, time.Now().Unix())
-	before := len(as.IdP.PeekCalls("introspect", h.id.AT))
+	asked := func() int {
+		n := len(as.IdP.PeekCalls("introspect", h.id.AT))
+		if h.id.RT != "" {
+			n += len(as.IdP.PeekCalls("refresh", h.id.RT))
+		}
+		return n
+	}
+	before := asked()
 	rs := h.b.authReq("GET", as.Path("sign_in")+"?"+q.Encode(), []string{as.CookieName + "=" + cookie}, nil)
 	if rs.Err != nil {
 		return false, false, 0, rs.Err
 	}
-	idpAsked = len(as.IdP.PeekCalls("introspect", h.id.AT)) > before
+	idpAsked = asked() > before
 	if rs.Status/100 == 3 {
 		if u, e := url.Parse(rs.Location()); e == nil {
 			if c := u.Query().Get("code"); c != "" {
@@ -359,27 +448,37 @@ func TestProp(t *testing.T) {
 	rep.Rule("one case = one browser history over the two-service stack: full login (proxy 302, authenticator sign-in page and its form, /start, emulated IdP consent, /callback, /sign_in code, proxy callback, backend hit), proxy /oauth2/sign_out, authenticator GET and/or POST sign_out, then reuse of the saved old cookies in virtual time. Dimensions are strided (proxy cookie_secure x upstream x IdP revoke outcome) and drawn per case from (seed, index): proxy cookie class at sign-out, signature class of the return address, GET-then-POST vs POST directly, authenticator cookie class at GET and at POST, validate- vs refresh-kind revalidation. distinct = that tuple, counted only for histories whose login completed and whose sign-out requests were answered")
 	rep.Assume("the fake IdP answers exactly as scripted and logs every call with sequence numbers; a token counts as revoked at the IdP iff a revoke call for it was answered 200 or with Okta's 'invalid or expired' 400; from then on the harness scripts introspect => inactive and refresh => 400 for it")
 	rep.Assume("only the Okta provider (revokes the refresh token) can be mounted in NewAuthenticatorMux offline; Google's endpoints are hard-wired host names, so Google's Revoke (access token) is only driven directly against a plain test server for its error mapping (stream c19-google-revoke)")
+	rep.Assume("stream c19-concurrent: 2-3 simultaneous sign-out POSTs on one authenticator for harness-sealed sessions (same e-mail / JWT-like tokens with a long common prefix or suffix / unrelated / the very same session); the first revoke call is held open at the fake IdP until the others are in flight; each request is judged on its own token's revoke calls. Merging the calls of the SAME session is a don't-care")
+	rep.Assume("authenticator session time at sign-out: token-expired and lifetime-nearly-over sessions must be revoked like fresh ones (Okta revokes the refresh token, which does not lapse with the access token); lifetime-expired sessions and sessions with neither refresh token nor live access token are counted don't-cares; a session without refresh token but with a live access token must not be cleared without any revoke call at the IdP")
 	rep.Assume("virtual time: the saved proxy cookie is re-sealed with all deadlines moved into the past (11 min: validity lapsed; 65 min: access token lapsed); signature timestamps are crafted by the harness, >= 60 s away from the 5 minute edge")
 
 	only, skipHist := env.Only(stream)
-	if !skipHist {
+	onlyConc, skipConc := env.Only(streamConc)
+	if !skipHist || !skipConc {
 		w, err := newWorld()
 		if err != nil {
 			rep.Inconclusive("two-service stack did not start: " + err.Error())
 		} else {
-			n := env.Pick(320, 8000)
-			start := time.Now()
-			vh.ForEach(n, 32, only, func(i int) { runHistory(w, rep, env, i) })
-			rep.Extra("wall_histories_s", time.Since(start).Seconds())
+			if !skipHist {
+				n := env.Pick(320, 8000)
+				start := time.Now()
+				vh.ForEach(n, 32, only, func(i int) { runHistory(w, rep, env, i) })
+				rep.Extra("wall_histories_s", time.Since(start).Seconds())
+				if only < 0 {
+					if f := atomic.LoadInt64(&preconditionFailures); f*50 > int64(n) {
+						rep.Inconclusive(fmt.Sprintf("%d of %d histories did not complete their login (harness precondition)", f, n))
+					}
+				}
+			}
+			if !skipConc {
+				start := time.Now()
+				runConcurrent(w, rep, env, onlyConc)
+				rep.Extra("wall_concurrent_s", time.Since(start).Seconds())
+			}
 			if p := w.as.ErrLog.Panics() + w.px[0].ErrLog.Panics() + w.px[1].ErrLog.Panics(); p > 0 {
 				rep.Violate(stream, 0, "handler panic during sign-out histories", fmt.Sprintf("%d handler panics logged by the servers", p), nil)
 			}
 			w.Close()
-			if only < 0 {
-				if f := atomic.LoadInt64(&preconditionFailures); f*50 > int64(n) {
-					rep.Inconclusive(fmt.Sprintf("%d of %d histories did not complete their login (harness precondition)", f, n))
-				}
-			}
 		}
 	}
 	if o, skip := env.Only(streamGoogle); !skip {
@@ -399,7 +498,7 @@ func TestProp(t *testing.T) {
 		floors["revoke_outcome_observed_"+o] = env.Pick(5, 150)
 	}
 	for name, min := range floors {
-		if env.Replay != "" {
+		if env.Replay != "" || skipHist {
 			min = 0
 		}
 		rep.Floor(name, min)
@@ -421,7 +520,7 @@ func runHistory(w *world, rep *vh.Report, env vh.Env, i int) {
 		if attempt > 0 {
 			tag += "r"
 		}
-		if h.id, err = h.b.login(tag); err == nil {
+		if h.id, err = h.b.login(tag, !k.noRT()); err == nil {
 			break
 		}
 		rep.Count("login_attempt_failed", 1)
@@ -432,6 +531,8 @@ func runHistory(w *world, rep *vh.Report, env vh.Env, i int) {
 		return
 	}
 	rep.Count("logins_completed", 1)
+	h.ageAuthSession()
+	rep.Count("auth_session_at_sign_out_"+k.AuthTime, 1)
 	if !h.signOut() {
 		return
 	}
@@ -537,7 +638,7 @@ func (h *hist) signOut() bool {
 	}
 
 	// POST (as the page's form sends it: parameters in the body, none in the query)
-	revokeKey := []string{id.RT, id.AT}
+	revokeKey := h.tokens()
 	var hold chan struct{}
 	if k.Revoke == "slow-ok" {
 		hold = make(chan struct{})
@@ -601,12 +702,29 @@ func (h *hist) signOut() bool {
 		if nCalls > 0 {
 			h.violate("auth sign_out POST: revoke called for a session that was not presented", fmt.Sprintf("%d revoke calls for the user's token although the cookie was %s", nCalls, k.PostCookie))
 		}
+	case !k.hardRevoke() && k.AuthTime != "no-refresh-token":
+		// lifetime-expired / no refresh token and the access token expired: counted, not judged
+		rep.Count(fmt.Sprintf("dontcare_%s_post_status_%d_cookie_%s_own_revoke_calls_%d", k.AuthTime, post.Status, cs, nCalls), 1)
+		revokedAtIdP = nDone > 0 && revokeSucceeds(k.Revoke)
+	case k.AuthTime == "no-refresh-token" && nCalls == 0:
+		// no revoke call for the access token; was there a (token-less) revoke call at all?
+		empty := h.emptyTokenRevokes(post)
+		switch {
+		case post.Status/100 != 3 && cs != "cleared":
+			rep.Count(fmt.Sprintf("no_refresh_token_not_signed_out_status_%d_tokenless_revoke_%v", post.Status, empty > 0), 1)
+		case empty == 0:
+			h.violate("auth sign_out POST: signed out without revoking the token at the IdP concurrent=false session=no-refresh-token", fmt.Sprintf("the session has a live access token but no revoke call of any kind reached the IdP during the request; status %d, session cookie %s", post.Status, cs))
+		default:
+			rep.Count("no_refresh_token_signed_out_after_unattributable_tokenless_revoke", 1)
+		}
 	default:
 		revokedAtIdP = h.judgePost(post, nCalls, nDone, cs, good, refPage)
 	}
 	if revokedAtIdP {
 		as.IdP.Set("introspect", id.AT, sut.IntrospectOK(false))
-		as.IdP.Set("refresh", id.RT, sut.OktaRevoked())
+		if id.RT != "" {
+			as.IdP.Set("refresh", id.RT, sut.OktaRevoked())
+		}
 		as.IdP.Set("userinfo", id.AT, sut.Answer{Status: 401, Body: `{"error":"invalid_token"}`})
 	}
 
@@ -699,7 +817,6 @@ func (h *hist) doPost(target string, cookies []string, form url.Values, hold cha
 	if hold == nil {
 		return h.b.authReq("POST", target, cookies, form)
 	}
-	idp := h.w.as.IdP
 	done := make(chan *sut.Resp, 1)
 	go func() { done <- h.b.authReq("POST", target, cookies, form) }()
 	deadline := time.After(15 * time.Second)
@@ -720,7 +837,7 @@ func (h *hist) doPost(target string, cookies []string, form url.Values, hold cha
 		case <-deadline:
 			return nil
 		case <-tick.C:
-			if !released && idp.MaxInflight("revoke", h.id.RT)+idp.MaxInflight("revoke", h.id.AT) > 0 {
+			if !released && h.ownRevokeSeen() {
 				time.Sleep(25 * time.Millisecond) // the call is open at the IdP; an answer now would be premature
 				select {
 				case rs := <-done:
@@ -733,6 +850,15 @@ func (h *hist) doPost(target string, cookies []string, form url.Values, hold cha
 	}
 }
 
+func (h *hist) ownRevokeSeen() bool {
+	for _, key := range h.tokens() {
+		if h.w.as.IdP.MaxInflight("revoke", key) > 0 {
+			return true
+		}
+	}
+	return false
+}
+
 // judgePost is O3 for a POST with a genuine authenticator cookie and a valid return address.
 // It returns whether the IdP now regards the token as revoked.
 func (h *hist) judgePost(post *sut.Resp, nCalls, nDone int, cs, good string, refPage []byte) bool {
@@ -740,7 +866,7 @@ func (h *hist) judgePost(post *sut.Resp, nCalls, nDone int, cs, good string, ref
 	redirected := post.Status/100 == 3
 	if nCalls == 0 {
 		if redirected || cs == "cleared" {
-			h.violate("auth sign_out POST: signed out without revoking the token at the IdP", fmt.Sprintf("no revoke call reached the IdP during the request; status %d, session cookie %s", post.Status, cs))
+			h.violate("auth sign_out POST: signed out without revoking the token at the IdP concurrent=false session="+k.AuthTime, fmt.Sprintf("no revoke call for the session's token reached the IdP during the request; status %d, session cookie %s", post.Status, cs))
 		} else if post.Status/100 == 4 {
 			h.violate("auth sign_out POST: valid signed in-domain return address refused", fmt.Sprintf("status %d and no revoke call for a %s request with a genuine session", post.Status, k.Sig))
 		} else {
@@ -796,6 +922,12 @@ func (h *hist) judgePost(post *sut.Resp, nCalls, nDone int, cs, good string, ref
 		if v, set, cleared := post.Cookie(as.CookieName); set && !cleared {
 			cookie = v
 		}
+		if k.AuthTime == "token-expired" {
+			// the IdP still honours the refresh token: /sign_in will renew the access token with it
+			as.IdP.Set("refresh", h.id.RT, sut.TokenOK("at2-"+h.id.Tag, "", int64(sut.TokenTTL.Seconds())))
+			as.IdP.Set("userinfo", "at2-"+h.id.Tag, sut.UserinfoOK(h.id.Email, true, h.id.Groups))
+			as.IdP.Set("introspect", "at2-"+h.id.Tag, sut.IntrospectOK(true))
+		}
 		for attempt := 0; attempt < 2; attempt++ {
 			code, asked, status, err := h.signInYieldsCode(cookie)
 			if err != nil || (!code && !asked && attempt == 0) {
@@ -822,7 +954,7 @@ func (h *hist) reuse(revoked bool, postBody url.Values, good string) bool {
 	// replay of the same (still fresh) signed parameters with the saved authenticator cookie: allowed;
 	// the IdP now answers "already revoked", which counts as success
 	if revoked && k.Replay && isValidSig(k.Sig) {
-		for _, key := range []string{id.RT, id.AT} {
+		for _, key := range h.tokens() {
 			as.IdP.Set("revoke", key, sut.OktaRevoked())
 		}
 		rp := b.authReq("POST", as.Path("sign_out"), []string{as.CookieName + "=" + id.AuthCookie}, postBody)
@@ -855,7 +987,7 @@ func (h *hist) reuse(revoked bool, postBody url.Values, good string) bool {
 	delta := 11 * time.Minute
 	if k.Reuse == "refresh" {
 		delta = 65 * time.Minute
-		if !revoked {
+		if !revoked && id.RT != "" {
 			as.IdP.Set("refresh", id.RT, sut.TokenOK("at2-"+id.Tag, "", int64(sut.TokenTTL.Seconds())))
 			as.IdP.Set("userinfo", "at2-"+id.Tag, sut.UserinfoOK(id.Email, true, id.Groups))
 		}
